@@ -101,6 +101,30 @@ fn w() {
     loop { i += 1; println(i); }
 }
 `},
+	// the cancellation is noticed inside a callee of every kind while the caller is about to use
+	// the result of the call (bind it, pass it on, index with it)
+	{Name: "results-of-calls-used-at-once", Infinite: false, TreeOK: true, Own: "ok", Full: "2 5 10 8\n[6, 8] 10 3\nend\n", Source: `fn twice(x: int) -> int { x * 2 }
+fn main() {
+    let double = fn(n: int) -> int { let r = n * 2; r };
+    let a = double(1);
+    let b = double(a) + 1;
+    println(a, b, double(b).to_string(), twice(double(2)));
+    let l = [double(3), double(4)];
+    let o = new { f: double };
+    println(l, o.f(5), [1, 2, 3][double(1)]);
+    println("end");
+}
+`},
+	{Name: "loop-inside-a-closure-whose-result-is-bound", Infinite: true, TreeOK: true, Source: `fn main() {
+    let spin = fn(n: int) -> int {
+        let i = n;
+        while i > 0 { i += 1; }
+        i
+    };
+    let a = spin(1);
+    println(a.to_string());
+}
+`},
 	{Name: "spawned-finishes-main-loops", Infinite: true, Source: `fn main() {
     spawn w();
     let i = 0;
